@@ -137,6 +137,11 @@ Definition seg_cross (p1 p1n p2 p2n : pt) : bool :=
 Definition closed_edges (w : list pt) : list (pt * pt) :=
   match w with [] => [] | f :: _ => edges (w ++ [f]) end.
 
+(* intersect(r1, z1, r2, z2, closed1, closed2): an open polyline has the edges between consecutive vertices only *)
+Definition poly_edges (closed : bool) (w : list pt) : list (pt * pt) := if closed then closed_edges w else edges w.
+Definition poly_intersect (c1 c2 : bool) (w1 w2 : list pt) : bool :=
+  existsb (fun e1 => existsb (fun e2 => seg_cross (fst e1) (snd e1) (fst e2) (snd e2)) (poly_edges c2 w2)) (poly_edges c1 w1).
+
 Definition poly_intersect_closed (w1 w2 : list pt) : bool :=
   existsb (fun e1 => existsb (fun e2 => seg_cross (fst e1) (snd e1) (fst e2) (snd e2)) (closed_edges w2)) (closed_edges w1).
 
